@@ -3,12 +3,11 @@
 Model: specs/TarStream/TarStream.tla - the reader layers of streamflow/deployment/aiotarstream.py as coded
 (TellableStreamWrapper.read loop, SeekableStreamReaderWrapper.seek, fromtarfile, next() with its swallowing
 branches, the two extraction paths of extract_tar_stream) over a raw stream that answers read(k) with any 1..k
-units; truncation and header corruption as faults.  Three switches select the design: AS CODED since 02c607f =
-FixSeek and FixData and not FixHdr (seek loops and raises, the end of the stream inside data raises, next() still
-swallows truncated/corrupted headers after the first member); REPAIRED = all three.  TLC checks the repaired
-design against all properties (safety + termination) and the as-coded design against TellIsTrue, NoHang,
-IntactExact, OnlyHeaderSwallowingLeft and termination; the as-coded design still violates ExactOrFail on
-truncated / corrupted streams, and those counterexamples are replayed on the real code.
+units; truncation and header corruption as faults.  Three switches select the design: AS CODED = all three
+(FixSeek, FixData since 02c607f: seek loops and raises, the end of the stream inside data raises; FixHdr since the
+header fix: next() raises on a truncated/corrupted header after the first member instead of reporting the end of
+the archive).  TLC checks that design against all properties (safety incl. ExactOrFail + termination); the
+generation runs use the same switches, so every replayed behaviour must end as the model says (exact or error).
 
 Binding (spec -> code, B-sim): every behaviour TLC generates (exhaustively: every chunking of a small archive;
 by simulation for larger ones) is replayed on REAL archives of that shape (written by Python tarfile GNU/PAX/
@@ -297,9 +296,9 @@ def shapes_module(shapes):
             "=============================================================================\n" % ",\n              ".join(shapes))
 
 
-# the design as coded in /repo (since 02c607f): seek loops and raises, the end of the stream inside data raises,
-# next() still swallows truncated / corrupted headers after the first member
-AS_CODED = {"FixSeek": True, "FixData": True, "FixHdr": False}
+# the design as coded in /repo: seek loops and raises, the end of the stream inside data raises (02c607f),
+# next() raises on a truncated / corrupted header after the first member (header fix)
+AS_CODED = {"FixSeek": True, "FixData": True, "FixHdr": True}
 
 
 def cfg_text(B, bufs, paths, trunc, corrupt, flags=AS_CODED):
@@ -379,7 +378,6 @@ def run(ctx):
 # phase 1-3: model checking, counterexample replay, behaviour replay
 # ------------------------------------------------------------------------------------------------
 def model_phase(ctx, by_tree):
-    B_CEX = 4
     jobs = {}      # name -> kwargs of ctx.tlc
 
     def job(name, module, cfg, files=None, **kw):
@@ -389,10 +387,7 @@ def model_phase(ctx, by_tree):
     tier = ctx.pick("quick", "thorough")
     job("fixed", "MC_TarStream", "MC_TarStream_fixed_%s.cfg" % tier, coverage=True, timeout=3000)
     job("ascoded", "MC_TarStream", "MC_TarStream_ascoded_%s.cfg" % tier, coverage=True, timeout=3000)
-    # the violations the as-coded design still has: ExactOrFail on a truncated stream and on a corrupted header
-    cex_runs = ctx.pick([], ["trunc", "corrupt"])
-    for c in cex_runs:
-        job("cex_" + c, "MC_TarStream", "MC_TarStream_cex_%s.cfg" % c, timeout=1800, count=False)
+    # (no counterexample configs: the as-coded design has no violation left; cex_trunc / cex_corrupt went with the header fix)
 
     # generation runs: shapes of the real archives
     def shapes_of(trees, B):
@@ -446,7 +441,7 @@ def model_phase(ctx, by_tree):
             _dbg(ctx, "tlc %s: ok=%s err=%s states=%d wall=%.1fs out=%dKB" % (name, results[name].ok, results[name].error,
                                                                     results[name].distinct, results[name].wall_s, len(results[name].stdout) // 1024))
 
-    # ---- the repaired design satisfies everything; the as-coded design keeps what it should
+    # ---- both configurations describe the design as coded now (all switches TRUE) and must satisfy everything
     r = results["fixed"]
     ctx.require(r.ok, "TarStream (repaired design) violates %s: specification error\n%s" % (r.violated or r.error, r.stdout[-1500:]))
     ctx.require_coverage(r, ["NextCall", "Seek", "HdrRead", "HdrParse", "ExtDone", "DStart", "DataRead", "DataFin"])
@@ -459,27 +454,6 @@ def model_phase(ctx, by_tree):
     shown = set()
 
     async def replays():
-        # ---- counterexamples of the as-coded design, replayed on the real code
-        for c, tree in (("trunc", "cex"), ("corrupt", "cex")):
-            if c not in cex_runs:
-                continue
-            r = results["cex_" + c]
-            ctx.require(r.error == "invariant" and r.trace, "as-coded model: expected a counterexample for %s, got %s" % (c, r.error))
-            beh = trace_to_behaviour(r.trace)
-            beh["total"] = shape_total(beh["sh"], B_CEX)
-            followed = 0
-            skey = (B_CEX, tuple((m["e"], m["n"]) for m in beh["sh"]["m"]), beh["sh"]["tail"])
-            matching = [a for a in by_tree.get(tree, []) if a.shape(B_CEX).key() == skey]
-            ctx.require(len(matching) > 0, "no real archive has the shape of the counterexample %s: %s" % (c, beh["sh"]))
-            for arc in matching:
-                outcome, model, res = await replay_behaviour(ctx, runner, beh, arc, B_CEX, "cex_" + c)
-                followed += 1 if outcome == model["outcome"] else 0
-                ctx.impl_trace(1)
-            ctx.count("counterexample_%s_followed_by_code" % c, followed)
-            ctx.count("counterexample_%s_replays" % c, len(matching))
-            if c == "trunc":
-                ctx.sample({"counterexample": "ExactOrFail (as coded, truncated stream)", "reads": beh["reads"], "model": beh["pc"],
-                            "created": beh["created"], "causes": beh["causes"], "real_archives_following": followed})
         # ---- generated behaviours
         for name, B, sm, exhaustive, per in gens:
             g = results[name]
